@@ -327,10 +327,7 @@ func (fx *FnExec) havocAssigns(st *State, envPre *SpecEnv, assigns []*Clause, fn
 			st.heap[loc.whole] = fx.c.Fresh("hv_"+loc.whole, s)
 		case loc.whole != "":
 			// ghost component
-			old := st.heap[loc.whole]
-			if old != nil {
-				st.heap[loc.whole] = fx.c.Fresh("hv_"+loc.whole, old.S)
-			}
+			st.heap[loc.whole] = fx.c.Fresh("hv_"+loc.whole, loc.gsort)
 		case loc.si != nil:
 			ft := loc.si.st.Field(loc.fidx).Type()
 			v := fx.c.Fresh("hvf_"+loc.si.st.Field(loc.fidx).Name(), fx.e.sortOf(ft))
